@@ -41,9 +41,59 @@ pub fn lower_all(src: &str) -> Vec<(String, tir::Tx)> {
     r.unwrap_or_default()
 }
 
+/// A valid core program with two to four of everything that the language lets one write several
+/// of (references, signers, metadata entries, mints, burns, directives, parameters, locals, parties,
+/// env fields): any container that forgets the written order shows up as more than one encoding.
+pub fn plural_source(r: &mut Rng) -> String {
+    use crate::langgen::*;
+    let (mut p, _w) = crate::c01p::gen(r);
+    {
+        let parties = p.parties.clone();
+        let t = &mut p.txs[0];
+        let nref = 2 + r.below(3);
+        for k in 0..nref {
+            let name = (*r.pick(&["zeta", "alpha", "mid", "beta", "omega", "kappa"])).to_string() + &k.to_string();
+            t.references.push((name, E::UtxoRef(hx(&[0x70 + k as u8; 32]), r.below(4))));
+        }
+        let mut sg = t.signers.take().unwrap_or_default();
+        for k in 0..(2 + r.below(3)) {
+            sg.push(E::Hex(hx(&[0x50 + (r.below(200) as u8) % 40 + k as u8; 28])));
+        }
+        sg.push(E::Id(r.pick(&parties).clone()));
+        t.signers = Some(sg);
+        let mut md = t.metadata.take().unwrap_or_default();
+        for _ in 0..(2 + r.below(3)) {
+            md.push((E::Num(100 + r.below(900) as i64), E::Str("m".into())));
+        }
+        t.metadata = Some(md);
+        for _ in 0..(1 + r.below(3)) {
+            t.mints.push(MintBlock { amount: Some(E::AnyAsset(Box::new(E::Hex(hx(&[0x4d; 28]))), Box::new(E::Str(format!("N{}", r.below(5)))), Box::new(E::Num(1 + r.below(9) as i64)))), redeemer: None });
+        }
+        for _ in 0..r.below(3) {
+            t.burns.push(MintBlock { amount: Some(E::AnyAsset(Box::new(E::Hex(hx(&[0x4e; 28]))), Box::new(E::Str(format!("B{}", r.below(5)))), Box::new(E::Num(1 + r.below(9) as i64)))), redeemer: None });
+        }
+        for k in 0..(2 + r.below(2)) {
+            let party = E::Id(r.pick(&parties).clone());
+            t.adhoc.push(("withdrawal".into(), vec![("from".into(), party), ("amount".into(), E::Num(k as i64)), ("redeemer".into(), E::Unit)]));
+        }
+        if r.chance(1, 2) {
+            t.adhoc.push(("native_witness".into(), vec![("script".into(), E::Hex("820181820400".into()))]));
+            t.adhoc.push(("plutus_witness".into(), vec![("version".into(), E::Num(3)), ("script".into(), E::Hex("5101010023259800a518a4d136564004ae69".into()))]));
+        }
+        for k in 0..(1 + r.below(3)) {
+            t.locals.push((format!("extra_local{k}"), E::Num(k as i64)));
+        }
+    }
+    print_program(&mut Layout::plain(), &p)
+}
+
 pub fn generated_sources(r: &mut Rng, n: usize) -> Vec<(String, String)> {
     let mut out = vec![];
     for k in 0..n {
+        if k % 2 == 1 {
+            out.push((format!("gen{k}-plural"), plural_source(r)));
+            continue;
+        }
         let t = match r.below(3) {
             0 => crate::resolvep::template(r.below(5) as usize, r.below(4) as usize),
             1 => crate::resolvep::min_utxo_template(r.below(4) as usize),
